@@ -196,6 +196,7 @@ class C09(Check):
         # cannot be entered, the scan must get over the timeouts and still report the rest (own stream of draws)
         rng8 = rng_for(seed, "C09-silent", index)
         plan["silent"] = sorted(rng8.sample(range(2, 0x7F), rng8.choice([1, 2]))) if rng8.random() < 0.12 and not plan["thorough"] else []
+        plan["conn_bound"] = rng8.random() < 0.4
         if plan["silent"] and rng8.random() < 0.5 and len(g) > 1:
             plan["silent"][0] = rng8.choice(sorted(k_ for k_ in g if k_ != 1))
             plan["silent"] = sorted(set(plan["silent"]))
@@ -271,6 +272,15 @@ class C09(Check):
         ecu.busy_once = {tuple(e_) for e_ in plan.get("busy_once") or []}
         ecu.reset_delay = plan.get("reset_delay", 0.0)
         ecu.silent = set(plan.get("silent") or [])
+        if plan.get("conn_bound"):
+            # ECU model dimension: the diagnostic session belongs to the connection - a new TCP connection starts in the default
+            # session (what DoIP / TCP gateways do); a scan that reconnects without need loses its place
+            def on_accept(conn: Any) -> None:
+                if conn.index >= 1:
+                    ecu.state.reset()
+                    ecu.conn_resets = getattr(ecu, "conn_resets", 0) + 1
+
+            world.net.on_accept = on_accept
         kw: dict[str, Any] = {}
         if plan["db"]:
             kw["db"] = tmp / "db.sqlite"
@@ -384,6 +394,8 @@ class C09(Check):
             bump(res["faults"], "thorough")
         if plan["reset"]:
             bump(res["faults"], "reset_between_probes")
+        if getattr(ecu, "conn_resets", 0):
+            bump(res["faults"], "new_connection_started_in_the_default_session", ecu.conn_resets)
         if ecu.silent_fired:
             bump(res["faults"], "session_change_requests_left_unanswered_by_the_ecu", ecu.silent_fired)
         if ecu.late_resets:
